@@ -4,3 +4,4 @@ import SakuraVerif.Props.C20
 import SakuraVerif.Gen.Tables
 import SakuraVerif.Props.C04
 import SakuraVerif.Props.C15
+import SakuraVerif.Props.C17
